@@ -25,8 +25,16 @@ package cpusuppress
 //     package's CgroupReader (cpuset.cpus on v1, cpuset.cpus.effective on v2, which the harness
 //     keeps equal to the root's cpuset.cpus as a kernel whose ancestors are wider does);
 //   * the target is one non-empty cpu list for the whole BE tree, in any order;
-//   * the tree is at most BE root / pod / container deep (the function stops at container depth;
-//     deeper cgroups would make the target assignment itself invalid);
+//   * the rewritten tree is BE root / 0-8 pods / 0-5 containers (the function stops at container
+//     depth); a cgroup nested below a container may exist, then every target of the case contains
+//     its cpus (otherwise the target assignment itself would be invalid) and it must never be
+//     written; a pod dir without cpuset.cpus file may exist; directory names follow the systemd or the
+//     cgroupfs driver; cpu ids come from a per-case table (1-64 cpus; dense, offset, holes, blocks);
+//   * a v2 cpuset.cpus may start empty (the cgroup inherits): valid under any parent; children are
+//     checked against the nearest ancestor that has cpus; cpuset.cpus.effective of every cgroup is
+//     recomputed after each write as the kernel does;
+//   * an empty target list (no eligible cpu) is passed now and then: the function skips, nothing may
+//     be written; ResourceForceUpdateSeconds is either far in the future or 0;
 //   * the ResourceCache holds only what koordlet wrote itself: cold, warm from an earlier
 //     suppression round, cold again after a simulated crash (new process); files are re-displayed
 //     in the kernel's canonical range format between rounds;
@@ -62,20 +70,67 @@ func (c12Discard) Write(p []byte) (int, error) { return len(p), nil }
 
 var c12Epoch = time.Date(2001, 1, 1, 0, 0, 0, 0, time.UTC)
 
-func c12Ranges(mask uint64) string {
-	var parts []string
-	for i := 0; i < 64; i++ {
-		if mask&(1<<uint(i)) == 0 {
-			continue
+// c12CPUIDs is the cpu id table of the running case: bit i of a cpuset mask stands for the logical
+// cpu c12CPUIDs[i] (ascending). Ids need not start at 0 nor be contiguous. Cases run one at a time.
+var c12CPUIDs []int
+
+func c12GenCPUIDs(r *kit.Rand) []int {
+	n := kit.Pick(r, []int{1, 2, 2, 4, 4, 8, 8, 16, 16, 32, 64})
+	ids := make([]int, n)
+	switch r.Weighted(55, 15, 18, 12) {
+	case 0:
+		for i := range ids {
+			ids[i] = i
 		}
+	case 1:
+		off := kit.Pick(r, []int{1, 7, 64, 200, 960})
+		for i := range ids {
+			ids[i] = off + i
+		}
+	case 2:
+		id := r.Intn(3)
+		for i := range ids {
+			ids[i] = id
+			id++
+			if r.Pct(35) {
+				id += r.Range(1, 5)
+			}
+		}
+	default:
+		gap := kit.Pick(r, []int{64, 128, 512})
+		for i := range ids {
+			if i < (n+1)/2 {
+				ids[i] = i
+			} else {
+				ids[i] = gap + i - (n+1)/2
+			}
+		}
+	}
+	return ids
+}
+
+func c12IDsOf(mask uint64) []int {
+	var out []int
+	for i, id := range c12CPUIDs {
+		if mask&(1<<uint(i)) != 0 {
+			out = append(out, id)
+		}
+	}
+	return out
+}
+
+func c12Ranges(mask uint64) string {
+	ids := c12IDsOf(mask)
+	var parts []string
+	for i := 0; i < len(ids); i++ {
 		j := i
-		for j+1 < 64 && mask&(1<<uint(j+1)) != 0 {
+		for j+1 < len(ids) && ids[j+1] == ids[j]+1 {
 			j++
 		}
 		if j == i {
-			parts = append(parts, strconv.Itoa(i))
+			parts = append(parts, strconv.Itoa(ids[i]))
 		} else {
-			parts = append(parts, fmt.Sprintf("%d-%d", i, j))
+			parts = append(parts, fmt.Sprintf("%d-%d", ids[i], ids[j]))
 		}
 		i = j
 	}
@@ -87,6 +142,10 @@ func c12ParseSet(raw string) (uint64, bool) {
 	if s == "" {
 		return 0, false
 	}
+	bit := map[int]int{}
+	for i, id := range c12CPUIDs {
+		bit[id] = i
+	}
 	var m uint64
 	for _, part := range strings.Split(s, ",") {
 		lohi := strings.Split(part, "-")
@@ -94,18 +153,22 @@ func c12ParseSet(raw string) (uint64, bool) {
 			return 0, false
 		}
 		lo, err := strconv.Atoi(lohi[0])
-		if err != nil || lo < 0 || lo > 63 {
+		if err != nil || lo < 0 || lo > 8192 {
 			return 0, false
 		}
 		hi := lo
 		if len(lohi) == 2 {
 			hi, err = strconv.Atoi(lohi[1])
-			if err != nil || hi < lo || hi > 63 {
+			if err != nil || hi < lo || hi > 8192 {
 				return 0, false
 			}
 		}
 		for i := lo; i <= hi; i++ {
-			m |= 1 << uint(i)
+			b, ok := bit[i]
+			if !ok {
+				return 0, false // a cpu the node does not have
+			}
+			m |= 1 << uint(b)
 		}
 	}
 	return m, true
@@ -152,10 +215,11 @@ type c12File struct {
 	node   int
 	path   string
 	eff    string // cpuset.cpus.effective (v2 only), kept equal to cpuset.cpus by the harness's "kernel"
-	cur    uint64
+	cur    uint64 // 0 = empty cpuset.cpus (v2: the cgroup inherits its parent's effective cpus)
 	start  uint64
 	target uint64
 	writes int
+	deep   bool // below container depth: applyCPUSetWithNonePolicy never touches it
 }
 
 type c12World struct {
@@ -168,6 +232,7 @@ type c12World struct {
 	dirs       []string // relative parent dirs
 	files      []*c12File
 	monitor    bool
+	nl         string
 	startClass string
 	calls      int
 	trace      [][]uint64
@@ -219,12 +284,44 @@ func (w *c12World) setRaw(path, content string) {
 // redisplay shows every value as the kernel does (canonical range list; effective cpus of the root).
 func (w *c12World) redisplay() {
 	for _, f := range w.files {
-		w.setRaw(f.path, c12Ranges(f.cur))
-		if w.v2 {
-			// every ancestor is at least as wide (valid hierarchy), so effective = configured
-			w.setRaw(f.eff, c12Ranges(f.cur))
+		d := c12Ranges(f.cur)
+		if d != "" {
+			d += w.nl
 		}
+		w.setRaw(f.path, d)
 	}
+	w.refreshEffective()
+}
+
+// effective is the kernel's cpuset.cpus.effective: the configured cpus cut to the parent's effective
+// ones, or the parent's effective ones when cpuset.cpus is empty; the BE root's ancestors are wider.
+func (w *c12World) effective(n int) uint64 {
+	f := w.files[n]
+	if w.parent[n] < 0 {
+		return f.cur
+	}
+	pe := w.effective(w.parent[n])
+	if f.cur == 0 {
+		return pe
+	}
+	return f.cur & pe
+}
+
+func (w *c12World) refreshEffective() {
+	if !w.v2 {
+		return
+	}
+	for n, f := range w.files {
+		w.setRaw(f.eff, c12Ranges(w.effective(n))+w.nl)
+	}
+}
+
+// holder returns the nearest ancestor-or-self with a non-empty cpuset.cpus.
+func (w *c12World) holder(n int) int {
+	for w.files[n].cur == 0 && w.parent[n] >= 0 {
+		n = w.parent[n]
+	}
+	return n
 }
 
 func (w *c12World) addNode(parent int, name string, v uint64) int {
@@ -296,6 +393,7 @@ func (w *c12World) checkValid(where string) {
 		if p < 0 {
 			continue
 		}
+		p = w.holder(p) // an empty v2 parent passes on what its own parent allows
 		if f.cur&^w.files[p].cur != 0 {
 			w.c.Fail("C12/besuppress/mid-rewrite-invalid/cpuset",
 				"%s (cgroup %s): cpuset of child %s = %s is not contained in parent %s = %s (child start %s, parent start %s, target %s)\n%s",
@@ -320,6 +418,9 @@ func (w *c12World) snapshot(path, value string) {
 		}
 	}
 	where := fmt.Sprintf("after updater #%d (%s <- %s)", w.calls, strings.TrimPrefix(path, system.Conf.CgroupRootDir), value)
+	if len(written) > 0 {
+		w.refreshEffective() // the kernel recomputes the effective cpus at once
+	}
 	w.checkValid(where)
 	w.c.Count("besuppress_crash_points_examined", 1)
 	if len(written) > 0 {
@@ -367,9 +468,13 @@ func (e *c12Exec) LeveledUpdateBatch(us [][]resourceexecutor.ResourceUpdater) {
 
 func (e *c12Exec) Run(stopCh <-chan struct{}) { e.real.Run(stopCh) }
 
-func c12NewSuppress(w *c12World) (*CPUSuppress, chan struct{}) {
+func c12NewSuppress(w *c12World, force0 bool) (*CPUSuppress, chan struct{}) {
+	force := 1 << 30
+	if force0 {
+		force = 0
+	}
 	real := &resourceexecutor.ResourceUpdateExecutorImpl{
-		Config:        &resourceexecutor.Config{ResourceForceUpdateSeconds: 1 << 30},
+		Config:        &resourceexecutor.Config{ResourceForceUpdateSeconds: force},
 		ResourceCache: cache.NewCache(100*365*24*time.Hour, 24*time.Hour),
 	}
 	s := &CPUSuppress{
@@ -436,54 +541,128 @@ func TestVerifC12BESuppress(t *testing.T) {
 	helper := system.NewFileTestUtil(t)
 	defer helper.Cleanup()
 	kit.Run(t, kit.Config{Property: "C12", Unit: "besuppress", Quick: 500, Thorough: 20000,
-		Rule: "one case = one kubepods-besteffort cpuset tree (BE root, 1-3 pods, 0-3 containers per pod, cgroup v1 or v2, 2-16 cpus) with a hierarchy-valid start (uniform or with narrower children) and 1-3 successive runs of the real applyCPUSetWithNonePolicy to a generated target set (shrink/grow/shift/all-cpus/same; cache cold, pre-warmed or warm from the previous round; new pods appearing between rounds; optionally a restart from a crash point of the previous round); a snapshot after every single updater; distinct = (cgroup version, shape, start class, kind, cache state, #writes); non-trivial = the round wrote files on at least two levels"},
+		Rule: "one case = one kubepods-besteffort cpuset tree (BE root, 0-8 pods, 0-5 containers per pod, occasionally a nested cgroup below a container or a dir without cpuset file, cgroup v1 or v2 with systemd or cgroupfs names, 1-64 cpus with dense/offset/sparse ids, v2 cgroups with an empty inheriting cpuset.cpus) with a hierarchy-valid start (uniform or with narrower children) and 1-6 successive runs of the real applyCPUSetWithNonePolicy to a generated target set (shrink/grow/shift/all-cpus/same; cache cold, pre-warmed or warm from the previous round; new pods appearing between rounds; optionally a restart from a crash point of the previous round); a snapshot after every single updater; distinct = (cgroup version, shape, start class, kind, cache state, #writes); non-trivial = the round wrote files on at least two levels"},
 		func(c *kit.Case) {
 			r := c.R
 			w := &c12World{c: c, v2: r.Bool()}
 			helper.SetCgroupsV2(w.v2)
 			cleanup := func() {
 				for _, sub := range []string{"", "cpuset"} {
-					_ = os.RemoveAll(filepath.Join(helper.TempDir, sub, system.CgroupPathFormatter.ParentDir))
+					for _, parent := range []string{system.KubeRootNameSystemd, system.KubeRootNameCgroupfs} {
+						_ = os.RemoveAll(filepath.Join(helper.TempDir, sub, parent))
+					}
 				}
 			}
 			cleanup()
 			defer cleanup()
-			ncpu := kit.Pick(r, []int{2, 4, 8, 16})
-			w.universe = (uint64(1) << uint(ncpu)) - 1
+			// the kubelet's cgroup driver decides the directory names (kubepods.slice/kubepods-besteffort.slice
+			// vs kubepods/besteffort)
+			driver := system.Systemd
+			if r.Pct(30) {
+				driver = system.Cgroupfs
+			}
+			system.SetupCgroupPathFormatter(driver)
+			defer system.SetupCgroupPathFormatter(system.Systemd)
+			c12CPUIDs = c12GenCPUIDs(r)
+			ncpu := len(c12CPUIDs)
+			w.universe = ^uint64(0)
+			if ncpu < 64 {
+				w.universe = (uint64(1) << uint(ncpu)) - 1
+			}
+			w.nl = "\n"
+			if r.Pct(25) {
+				w.nl = ""
+			}
+			force0 := r.Pct(12)
+			emptyV2 := w.v2 && r.Pct(30) // some v2 cgroups have an empty cpuset.cpus (they inherit)
+			anyEmpty := false
 			w.rootDir = koordletutil.GetPodQoSRelativePath(corev1.PodQOSBestEffort)
 			// tree + start assignment
 			uniform := r.Pct(50)
 			rootSet := c12Subset(r, w.universe)
 			w.addNode(-1, "", rootSet)
 			childSet := func(p int) uint64 {
+				if w.files[p].cur == 0 || emptyV2 && r.Pct(35) {
+					anyEmpty = true
+					return 0 // empty, and so is everything below it
+				}
 				if uniform || r.Pct(40) {
 					return w.files[p].cur
 				}
 				return c12Subset(r, w.files[p].cur)
 			}
 			npods := r.Range(1, 3)
+			switch r.Weighted(5, 75, 20) {
+			case 0:
+				npods = 0 // no BE pod at the moment
+			case 2:
+				npods = r.Range(4, 8)
+			}
 			withContainers := r.Pct(75)
-			podNames := r.Perm(9)
+			podNames := r.Perm(12)
+			var deepMask uint64 // cpus held by cgroups below container depth (never rewritten)
+			var containers []int
 			for i := 0; i < npods; i++ {
 				p := w.addNode(0, fmt.Sprintf("kubepods-besteffort-pod%d.slice", podNames[i]), childSet(0))
 				if withContainers {
 					nc := r.Range(0, 3)
+					if r.Pct(10) {
+						nc = r.Range(4, 5)
+					}
 					for j := 0; j < nc; j++ {
-						w.addNode(p, fmt.Sprintf("cri-containerd-%d.scope", j), childSet(p))
+						containers = append(containers, w.addNode(p, fmt.Sprintf("cri-containerd-%d.scope", j), childSet(p)))
 					}
 				}
+			}
+			if len(containers) > 0 && r.Pct(10) {
+				// a cgroup nested inside a container (below the depth the function walks). Its cpuset stays as
+				// it is, so every target of this case contains it - otherwise the target would be invalid.
+				q := kit.Pick(r, containers)
+				if w.files[q].cur != 0 {
+					bits := c12Bits(w.files[q].cur)
+					d := w.addNode(q, "nested", uint64(1)<<uint(kit.Pick(r, bits)))
+					w.files[d].deep = true
+					deepMask |= w.files[d].cur
+					c.Count("besuppress_cases_with_cgroup_below_container_depth", 1)
+				}
+			}
+			if npods > 0 && r.Pct(10) {
+				// a pod dir that has no cpuset.cpus (yet): the walk lists it, the write is ignored
+				rsc, _ := system.GetCgroupResource(system.CPUSetCPUSName)
+				if err := os.MkdirAll(filepath.Dir(rsc.Path(filepath.Join(w.rootDir, "kubepods-besteffort-podzz.slice"))), 0o777); err != nil {
+					c.Harness("mkdir: %v", err)
+				}
+				c.Count("besuppress_cases_with_dir_without_cpuset_file", 1)
 			}
 			w.redisplay()
 			startClass := "uniform"
 			if !uniform {
 				startClass = "narrower-children"
 			}
-			c.Op("cgroup=%s cpus=%d start:%s", w.ver(), ncpu, w.dump())
+			if anyEmpty {
+				startClass = "v2-empty-children"
+			}
+			c.Op("cgroup=%s driver=%s cpu-ids=%v force-update-0=%v newline=%v start:%s", w.ver(), driver, c12CPUIDs, force0, w.nl != "", w.dump())
+			if driver == system.Cgroupfs {
+				c.Count("besuppress_cases_cgroupfs_driver", 1)
+			}
+			if force0 {
+				c.Count("besuppress_cases_force_update_0", 1)
+			}
+			if npods == 0 {
+				c.Count("besuppress_cases_without_pods", 1)
+			}
+			if len(w.files) > 12 {
+				c.Count("besuppress_cases_more_than_12_cgroups", 1)
+			}
+			if c12CPUIDs[len(c12CPUIDs)-1] != len(c12CPUIDs)-1 {
+				c.Count("besuppress_cases_sparse_or_offset_cpu_ids", 1)
+			}
 
-			s, stop := c12NewSuppress(w)
+			s, stop := c12NewSuppress(w, force0)
 			defer func() { close(stop) }()
 			cacheState := "cold"
-			if uniform && r.Pct(50) {
+			if uniform && !anyEmpty && deepMask == 0 && r.Pct(50) {
 				// an earlier suppression round of this process left the root's set everywhere
 				paths, err := koordletutil.GetBECPUSetPathsByMaxDepth(koordletutil.ContainerCgroupPathRelativeDepth)
 				if err != nil {
@@ -501,6 +680,9 @@ func TestVerifC12BESuppress(t *testing.T) {
 				cacheState = "warm-all"
 			}
 			nrounds := r.Range(1, 3)
+			if r.Pct(10) {
+				nrounds = r.Range(4, 6)
+			}
 			var target uint64
 			for i := 0; i < nrounds; i++ {
 				kindName := "resume"
@@ -512,7 +694,7 @@ func TestVerifC12BESuppress(t *testing.T) {
 					}
 					w.redisplay()
 					close(stop)
-					s, stop = c12NewSuppress(w)
+					s, stop = c12NewSuppress(w, force0)
 					cacheState = "cold-after-crash"
 					startClass = "crash-point"
 					c.Count("besuppress_rounds_resumed_from_crash_point", 1)
@@ -526,6 +708,7 @@ func TestVerifC12BESuppress(t *testing.T) {
 						// a pod (with containers) appeared since the last round; its cpusets are within the root's
 						p := w.addNode(0, fmt.Sprintf("kubepods-besteffort-podn%d.slice", i), 0)
 						uniform = r.Pct(50)
+						anyEmpty = false
 						w.files[p].cur = childSet(0)
 						if withContainers {
 							q := w.addNode(p, "cri-containerd-0.scope", 0)
@@ -534,13 +717,21 @@ func TestVerifC12BESuppress(t *testing.T) {
 						w.redisplay()
 						c.Count("besuppress_pods_added_between_rounds", 1)
 						startClass = "new-pod"
+						if anyEmpty {
+							startClass = "v2-empty-children"
+						}
 					}
 					kind := r.Weighted(25, 25, 25, 15, 10)
 					kindName = c12Kinds[kind]
 					target = c12Target(r, kind, w.files[0].cur, w.universe)
 				}
+				target |= deepMask
+				emptyTarget := kindName != "resume" && r.Pct(4) // nothing eligible: the caller passes no cpu at all
 				for _, f := range w.files {
 					f.start, f.target, f.writes = f.cur, target, 0
+					if f.deep || emptyTarget {
+						f.target = f.cur
+					}
 				}
 				w.calls = 0
 				w.trace = w.trace[:0]
@@ -551,8 +742,13 @@ func TestVerifC12BESuppress(t *testing.T) {
 				}
 				old := oldSet.ToInt32Slice()
 				var cpus []int32
-				for _, b := range c12Bits(target) {
-					cpus = append(cpus, int32(b))
+				for _, id := range c12IDsOf(target) {
+					cpus = append(cpus, int32(id))
+				}
+				if emptyTarget {
+					cpus = nil
+					kindName = "empty-target"
+					c.Count("besuppress_rounds_with_empty_target_skipped_by_the_function", 1)
 				}
 				if r.Bool() {
 					kit.Shuffle(r, cpus)
@@ -577,10 +773,10 @@ func TestVerifC12BESuppress(t *testing.T) {
 				levels := map[int]bool{}
 				totalWrites := 0
 				for n, f := range w.files {
-					if f.cur != target {
+					if f.cur != f.target {
 						c.Fail("C12/besuppress/final-not-target/cpuset",
 							"round %d (cgroup %s): after applyCPUSetWithNonePolicy returned cpuset of %s holds %s, target %s (start %s, %d writes)\n%s",
-							i, w.ver(), w.short(n), c12Show(f.cur), c12Show(target), c12Show(f.start), f.writes, w.dump())
+							i, w.ver(), w.short(n), c12Show(f.cur), c12Show(f.target), c12Show(f.start), f.writes, w.dump())
 					}
 					cl := c12Classify(f.start, f.target)
 					c.Count("besuppress_files_"+cl, 1)
@@ -602,9 +798,11 @@ func TestVerifC12BESuppress(t *testing.T) {
 				if totalWrites > 8 {
 					totalWrites = 8
 				}
-				c.Seen(w.v2, npods, withContainers, startClass, kindName, cacheState, totalWrites)
-				cacheState = "warm-previous-round"
-				startClass = "uniform"
+				c.Seen(w.v2, npods, withContainers, startClass, kindName, cacheState, totalWrites, driver, force0)
+				if !emptyTarget {
+					cacheState = "warm-previous-round"
+					startClass = "uniform"
+				}
 				w.redisplay()
 			}
 			if c.K < 2 {
